@@ -106,7 +106,9 @@ impl Gen {
                 let amount = boundary_amount(rng, o.min_stake(), headroom.min(self.profile.max_amount));
                 let mint_to: Option<String> = match rng.below(10) {
                     0 | 1 => Some(rng.pick(&sc.users).clone()),
-                    2 | 3 | 4 => Some(rng.pick(&sc.native_users).clone()),
+                    2 | 3 => Some(rng.pick(&sc.native_users).clone()),
+                    // the staker itself as native recipient: one receiver then has transfers in both denoms
+                    4 => Some(if rng.chance(1, 3) { o.staker() } else { rng.pick(&sc.native_users).clone() }),
                     5 if contract_sender => None,
                     _ if contract_sender => Some(rng.pick(&sc.users).clone()),
                     _ => None,
